@@ -424,6 +424,9 @@ func (s *Sched) fire(t transition) {
 	g := t.g
 	rq := g.req
 	s.last = g
+	if s.r.eng.traceEvents {
+		s.event(fmt.Sprintf("g%d(%s) %s case=%d at %s", g.id, g.name, rq.label, t.ci, firstPos(rq.pos)))
+	}
 	switch rq.kind {
 	case rqBlock:
 		s.cur = g
